@@ -203,6 +203,11 @@ def as_form(values, form, scalar_ok=False):
         return list(values)
     if form == 'tuple':
         return tuple(values)
+    if form == 'computed':
+        # the result of a NumPy computation (np.cos([0, 0]) for ones, 0 * x for zeros …): a fresh float64 array
+        return np.cos(np.zeros(len(values))) * np.array(values, dtype='float64')
+    if form == 'intarr' and all(v.is_integer() for v in values):
+        return np.array([int(v) for v in values])
     if scalar_ok and len(set(values)) == 1:
         return scalar_form(values[0], form)
     return np.array(values, dtype='float64')
@@ -453,7 +458,9 @@ def parse_w(tok):
 def parse_show(line):
     t = line.split(' ')
     if t[0] != 'ok':
-        raise MachineryError('unexpected model answer %r' % line)
+        # e.g. `err noobj`: the model never created this grid (model and implementation diverged earlier) —
+        # a difference for the correspondence to report, not a fault of the machinery
+        return {'refused': line}
     sysm, kind = t[1], t[2]
     if kind == 'reg':
         data = [parse_rat_list(t[3]), [int(x) for x in parse_rat_list(t[4])], parse_rat_list(t[5])]
@@ -489,6 +496,8 @@ def w_same(m, r):
 
 def compare_show(model, real, real_getw, weights=True):
     """Returns None or a short description of the first difference. Exactness flag second."""
+    if 'refused' in model:
+        return 'the model has no such grid: it answered %r' % model['refused']
     if model['sys'] != real['sys']:
         return 'system %s vs %s' % (model['sys'], real['sys'])
     if model['kind'] != real['kind']:
